@@ -249,7 +249,14 @@ impl<T: RealNumber> BBDTree<T> {
             return self.add_node(node);
         }
 
-        let split_cutoff = node.center[split_index];
+        let mut split_cutoff = node.center[split_index];
+        // The widest extent of the cell can be a single unit in the last place (adjacent floating-point
+        // values at a large magnitude). The midpoint then rounds onto the lower bound, no row lies
+        // below it, and the partition below would run off the front of the index. Cutting at the
+        // upper bound instead separates the rows that sit on it from the rest.
+        if split_cutoff <= lower_bound[split_index] {
+            split_cutoff = upper_bound[split_index];
+        }
         let mut i1 = begin;
         let mut i2 = end - 1;
         let mut size = 0;
